@@ -185,7 +185,7 @@ def run(tier, seed):
     items = [b""] + [bytes([i]) for i in range(256)] + [bytes([(7 * n + i) % 256 for i in range(n)]) for n in LENGTHS] + \
             [b"M", b"N", b"symmetric", b"Symmetric", b"M\x00", b"password", b"\x00" * 64, b"\xff" * 64]
     for name in T.SHIPPED:
-        sub = items if not quick else items[:1] + items[1:257:4] + items[257:]
+        sub = items if (not quick or name == "ParamsEd25519") else items[:1] + items[1:257:4] + items[257:]
         for ch in core.chunks([i for i in items if i not in sub], 16):
             tasks.append(("slice", (name, "pw", ch)))
         for ch in core.chunks(sub, 24):
